@@ -348,7 +348,7 @@ pub fn record(args: &Args) {
                         efg.scale = 1024;
                     }
                     let js = render(&t, "json", &mut rng, None);
-                    let budgets: &[&str] = if thorough { &["1", "2", "3", "50"] } else { &["2", "3", "50"] };
+                    let budgets: &[&str] = &["1", "2", "3", "50"];
                     for (bi, budget) in budgets.iter().enumerate() {
                         let d = DISCOUNTS[(gi + bi + variant) % 5];
                         let threads = threads_list[(gi + bi) % threads_list.len()];
@@ -374,7 +374,11 @@ pub fn record(args: &Args) {
                             ps.dedup();
                             if !ps.is_empty() {
                                 let p = ps[(gi + bi) % ps.len()];
-                                clips.push(format!("{p}"));
+                                // a threshold AT a probability only with one thread: with several threads the
+                                // summation order may move the probability by an ulp (DESIGN 3.4)
+                                if variant == 0 {
+                                    clips.push(format!("{p}"));
+                                }
                                 clips.push(format!("{}", p * 0.99));
                                 clips.push(format!("{}", p * 1.01));
                             }
@@ -1000,7 +1004,9 @@ pub fn replay(args: &Args) {
         if let Some(r) = c.get("ref").filter(|r| r.is_object()) {
             let gtol = c["group_tol"].as_f64().unwrap_or(1e-9);
             let margin = (r["regret_before"].as_f64().unwrap() - r["regret_after"].as_f64().unwrap()).abs();
-            let fragile = margin < 1e-9 && c["opts"]["c"].as_str().map_or(false, |s| s != "0");
+            // with one thread the tool and the reference perform the same operations, so even an exact tie of
+            // the two regrets is decided identically; with several threads the summation order may flip it
+            let fragile = margin < 1e-9 && c["opts"]["c"].as_str().map_or(false, |s| s != "0") && c["opts"]["p"].as_str() != Some("1");
             if !fragile {
                 for (pl, (key, side)) in [("player_one_strategy", "one"), ("player_two_strategy", "two")].iter().enumerate() {
                     let shown_of: BTreeMap<String, String> = c["names"][pl].as_object().unwrap().iter().map(|(s, l)| (l.as_str().unwrap().to_string(), s.clone())).collect();
